@@ -67,6 +67,12 @@ def alphabet(world):
         for t in world.toks:
             a = STATED[t.name]
             out.append(Op(f"supply[{t.name}]", lambda c, t=t, a=a: do("supply", t, a, lambda: m.supply(t, a, True)), False, "supply"))
+            if t != aave.WETH and t in m._borrows:
+                # everything the wallet holds of a borrowed token goes into a supply: a later cash repayment can not be paid and is refused
+                def all_in(c, t=t):
+                    w = c.broker.get_token_balance(t)
+                    return do("supply", t, w, lambda: m.supply(t, w, True))
+                out.append(Op(f"supply[{t.name},wallet]", all_in, True, "supply"))
             if t != aave.USDC:
                 # a supply that is not used as collateral accrues and is withdrawn exactly like any other
                 out.append(Op(f"supply[{t.name},nocoll]", lambda c, t=t, a=a: do("supply", t, a, lambda: m.supply(t, a, False)), True, "supply"))
@@ -194,6 +200,8 @@ class Oracle:
             return
         if not out.ok:
             part.count("rejected")
+            # a refused operation moved nothing: positions and wallet still equal the ledger, which has not been stepped
+            self.compare(ctx, hist, f"rejected-{op.kind}")
             return
         part.count("accepted")
         info = ctx.last
